@@ -271,6 +271,8 @@ def run_pattern(st, subject, hy):
         r = st[1](copy.deepcopy(subject))
     except TypeError:
         return "MErr"
+    except Exception as e:       # anything else is behaviour to be compared, not a crash of the check
+        return ("Raises", type(e).__name__)
     if r is None:
         return "MNo"
     return ("MYes", sorted((k, P.canon_val(v, hy)) for k, v in r[1].items()))
@@ -306,6 +308,17 @@ def classify(pat):
             walk(p[1])
     walk(pat)
     return found
+
+
+def attribute(classes, r_hy):
+    """which recorded construct a disagreement is attributed to: the two that make compile() reject the pattern
+    when the Hy side was rejected, the unmangled class keyword otherwise"""
+    rejecting = sorted(classes & {"string-literal-None-True-False", "star-wildcard-in-sequence"})
+    if r_hy == "Rejected":
+        return rejecting[0] if rejecting else None
+    if "class-pattern-keyword-not-mangled" in classes:
+        return "class-pattern-keyword-not-mangled"
+    return None
 
 
 def pattern_phase(chk, hy, env, batch, cases):
@@ -357,7 +370,7 @@ def pattern_phase(chk, hy, env, batch, cases):
             r_hy = run_pattern(st_hy, v, hy)
             r_py = run_pattern(st_py, v, hy)
             desc = {"pattern": P.pat_hy(pat), "python_pattern": P.pat_python(pat), "subject": repr(P.canon_val(v, hy))}
-            chk.count("pattern:" + (r_py if isinstance(r_py, str) else "MYes"))
+            chk.count("pattern:" + (r_py if isinstance(r_py, str) else r_py[0]))
             chk.count("pattern-kind:" + pat[0])
             chk.case(("pat", P.pat_hy(pat), desc["subject"]), nontrivial=pat[0] not in ("lit", "sym"),
                      sample=dict(desc, result=repr(r_hy)) if chk.evaluations % 701 == 5 else None)
@@ -366,9 +379,10 @@ def pattern_phase(chk, hy, env, batch, cases):
             if m_h != r_py and r_py != "Rejected":
                 chk.disagree("Pattern.hmatch (reference) vs the rendered Python pattern on CPython", desc, repr(m_h), repr(r_py))
             if r_hy != r_py:
-                if classes:
+                cls = attribute(classes, r_hy)
+                if cls:
                     # a pattern that contains one of the recorded constructs is judged as that construct only
-                    desc["class"] = sorted(classes)[0]
+                    desc["class"] = cls
                 chk.fail("pattern", desc, repr(r_hy), repr(r_py),
                          "hy: %s   python: %s" % (src_hy, src_py.replace("\n", "\\n")))
 
@@ -528,7 +542,7 @@ def run_all(chk, hy, model_ok, thorough):
     rng = chk.rng
     env = P.make_module(hy)
     depth = 4 if thorough else 3
-    n_pat = 2500 if thorough else 330
+    n_pat = 12000 if thorough else 330
     chk.rule = ("patterns of depth <= %d from all kinds of the sublanguage (literals incl. the strings None/True, singletons, "
                 "wildcard, captures incl. hyphenated names, dotted values, keywords, sequences with #* name / #* _, mappings "
                 "with #** rest, class patterns on builtins, on a class with __match_args__ (positional + keyword, incl. a "
@@ -573,7 +587,8 @@ def run_all(chk, hy, model_ok, thorough):
                 chk.case(("pat", P.pat_hy(pat), repr(P.canon_val(v, hy))))
                 if r_hy != r_py:
                     desc = {"pattern": P.pat_hy(pat), "python_pattern": P.pat_python(pat), "subject": repr(P.canon_val(v, hy))}
-                    if classes:
-                        desc["class"] = sorted(classes)[0]
+                    cls = attribute(classes, r_hy)
+                    if cls:
+                        desc["class"] = cls
                     chk.fail("pattern", desc, repr(r_hy), repr(r_py), src_hy)
-    match_phase(chk, hy, env, 1500 if thorough else 250, depth - 1)
+    match_phase(chk, hy, env, 6000 if thorough else 250, depth - 1)
